@@ -58,8 +58,7 @@ def resultLine (k : Kind) (size fsize : Int) : Res → String
   | .stored off v => "r " ++ summary k ((contentOf k false size).set off.toNat v)
   | .spliced ind1 ind2 fs realloc =>
     let own := contentOf k false size
-    let mid := if realloc && k == .buf then (List.range fs.toNat).map (fun (t : Nat) => rhsHeaderByte fsize (t : Int))
-               else contentOf k true fs
+    let mid := contentOf k true fs
     "r " ++ summary k (own.take ind1.toNat ++ mid ++ own.drop ind2.toNat)
 
 def trimNl (s : String) : String := (s.replace "\n" " ").trimAscii.toString
